@@ -21,7 +21,7 @@ def cov_c07(st, tier):
 
 ENGINES = [
     {"name": "E-A netsim", "path": "engine/", "serves_properties": ["C01", "C02", "C10", "C14", "C15"], "kind_free_text": "real client + real server main loops as coroutines in one process under a virtual clock/network/tun; fork-at-choice-point DFS over per-datagram fates, deviation-bounded"},
-    {"name": "E-B adversary", "path": "engine/", "serves_properties": [], "kind_free_text": "depth-bounded explicit-state search over message alphabets against the real server/client loop, exact-state hashing of the whole image"},
+    {"name": "E-B adversary", "path": "engine/", "serves_properties": ["C03", "C04", "C14", "C16"], "kind_free_text": "depth-bounded explicit-state search over message alphabets against the real server/client loop, exact-state hashing of the whole image"},
     {"name": "E-C enumerators", "path": "props/", "serves_properties": ["C07", "C08", "C09", "C17", "C18", "C19"], "kind_free_text": "exhaustive enumeration of finite input families through the real pure functions, compared with independent references"},
 ]
 
@@ -129,7 +129,75 @@ def ea_entry(prop, level_text, level_note, rule, extra_keys, quick_s=240, thorou
     }
 
 
+def cov_c14(st, tier):
+    ea, eb = st["parts"]["ea"], st["parts"]["eb"]
+    base = cov_ea("C14", "", ["answers", "max_pending"])(ea, tier)
+    base.update({
+        "states": ea["execs"] + ea["states"] + eb["states"], "transitions": ea["steps"] + eb["transitions"],
+        "traces_validated_against_impl": ea["execs"] + eb["transitions"], "evaluations": ea["execs"] + eb["letters_applied"],
+        "distinct_nontrivial": ea["distinct_outcomes"] + eb["distinct_outcomes"],
+        "rule": "E-A part: state = end state of one complete execution of real client+server under one fate assignment, transition = one scheduler step. "
+                "E-B part: state = distinct exact state (server image, users[], world, client model) reached by a letter sequence, transition = one letter applied to the real server loop. "
+                "Every execution/transition is an implementation run. distinct = distinct delivery outcome classes (E-A) + distinct (letter, pending count, outputs, duplicate answers) classes (E-B)",
+        "ea_part": {"executions": ea["execs"], "cells": ea["cells"], "answers_paired": ea["answers"], "max_pending_seen": ea["max_pending"], "wall_s": ea.get("wall_s")},
+        "eb_part": {"states": eb["states"], "transitions": eb["transitions"], "depth_completed": eb["maxdepth"], "alphabet_size": eb["letters"], "start_states": eb["start_states"],
+                    "queries_sent": eb["queries_sent"], "answers_paired": eb["answers_seen"], "redeliveries": eb["redeliveries"], "max_pending_seen": eb["max_pending"],
+                    "rest_states_with_two_held": eb["rest_states_with_two_held"], "wall_s": eb.get("wall_s")},
+    })
+    return base
+
+
+EB_ASSUME = COMMON_ASSUME + [
+    "the peer of the real server loop is the harness: every letter is one datagram / tun packet / time step; the server runs until it blocks in select() again",
+    "state key = hash of the server image's data+bss, the canonical content of users[] (engine/srvstate.h), the virtual world and the harness model; "
+    "stack bytes of finished calls are not part of the key (correct code does not read uninitialised locals; C12/C14 test that separately)",
+    "in-process snapshot/restore of the whole world instead of fork (engine/vw.c vw_snapshot), UBSan build"]
+
+
+def cov_eb(rule, keys):
+    def f(st, tier):
+        c = {
+            "states": st["states"], "transitions": st["transitions"], "traces_validated_against_impl": st["transitions"],
+            "evaluations": st["letters_applied"], "distinct_nontrivial": st["distinct_outcomes"],
+            "rule": "state = distinct exact state of (real server image, users[], virtual world, harness model) reached by some letter sequence; transition = one letter applied to the real "
+                    "server loop (every transition is an implementation run, no abstract model); search = depth-bounded DFS with exact-state table, re-expanding states reached at a smaller depth. " + rule,
+            "depth_completed": st["maxdepth"], "alphabet_size": st["letters"], "start_states": st["start_states"], "table_revisits_pruned": st["revisits"],
+        }
+        for k in keys:
+            c[k] = st.get(k)
+        return c
+    return f
+
+
+def eb_entry(harness, prop, level_text, level_note, rule, keys, quick_args, thorough_args, quick_s=120, thorough_s=1200):
+    return {
+        "harness": harness, "flavor": "ubsan", "images": (("s", "server"),), "engine": "E-B adversary", "args": ["--prop", prop],
+        "tiers": {"quick": {"budget_s": quick_s, "args": quick_args}, "thorough": {"budget_s": thorough_s, "args": thorough_args}},
+        "coverage": cov_eb(rule, keys), "level_text": level_text, "level_note": level_note,
+        "technique": "explicit-state model checking of the real server loop: depth-bounded exhaustive search over a finite message alphabet with exact-state hashing",
+        "assumptions": EB_ASSUME,
+    }
+
+
 PROPS = {
+    "C03": eb_entry("auth.c", "C03",
+        "Every sequence of up to N letters (N = depth bound) from an 82-letter alphabet - version/login with correct, replayed, other-slot, off-by-one, wrong and short responses, every privileged command, raw login/data/ping, tun arrivals, +30 s/+61 s - from two source addresses and userids 0,1,5,128 is applied to the real server loop from four start states (source check on/off, fresh/established); after every letter every tun write, every positive answer (login accept, address, codec/option/fragment-size acknowledgement, probe data, tunnel payload, raw login/ping reply) and every change of a session's settings must be attributable to a slot for which the response to its current challenge was sent since its last VACK.",
+        "One-directional oracle (never demands that a login be accepted). The model learns challenges from VACK answers like a client. Answers are attributed by the question they echo. Password and challenge values are fixed (C19 covers the formula for all inputs).",
+        "non-trivial/distinct = distinct (letter kind, argument, reply class sequence) outcomes observed", 
+        ["privileged_effects_by_logged_in_sessions", "logins_accepted", "tun_writes", "raw_logins_ok", "vacks"],
+        ["--depth", "4"], ["--depth", "5"]),
+    "C04": eb_entry("auth.c", "C04",
+        "Same search with a 70-letter alphabet that adds an IPv6 spoofer, tun packets for the server / an unassigned / an outside address and +5/+55/+61 s, from four start states (fresh; two logged-in sessions; one of them silent for 55 s; one in raw mode). (a) a request naming a slot from an address it is not bound to must be answered BADIP (raw: not at all), cause no other output, and leave the whole users[] record of that slot bit-identical; (b) every datagram caused by a tun packet for address X goes to the address bound to the live logged-in owner of X, nothing is emitted otherwise; (c) VACK never names a slot active within 60 s, a slot silent > 60 s is refused and a free slot is handed out.",
+        "'Active' is taken in the narrow sense of the code (messages that refresh the 60-second timer); the model keeps a certain and a possible last-activity time so that exact repeats served from the answer cache (which do not refresh the timer) never cause an alarm. Source check on (default).",
+        "non-trivial/distinct = distinct (letter kind, argument, reply class sequence) outcomes observed",
+        ["spoof_checks", "refused_spoofs", "routing_checks", "vacks", "expired_refused"],
+        ["--depth", "4"], ["--depth", "5"]),
+    "C16": eb_entry("lazy.c", "C16",
+        "For one established session and each record type (lazy and immediate), every sequence up to the depth bound of {new ping, new data fragment (first/last), tun packets, +20 ms/+1 s, raw login, lazy on/off} interleaved with re-deliveries of the 1st/2nd/3rd/5th most recent ping or data query - unchanged, with a fresh DNS id, from a second relay port, upper-cased - is applied to the real server loop. At every re-delivery the session's upstream reassembly position and bytes and its downstream position/queue (read from the real users[] record) must be identical before and after, and when the original is among the last four distinct queries answered on the data path and the repeat is byte-identical in name and type, the repeat must get exactly one answer carrying the original's payload (decoded by the reference decoders).",
+        "The answer-cache model (last four distinct answered ping/data queries) lives in the harness. The end-to-end consequence (no packet delivered twice or corrupted after re-delivery) is part of the C01/C02 explorations, whose dup / dup-with-fresh-id fates re-deliver real client queries.",
+        "non-trivial/distinct = distinct (letter, pending count, outputs, duplicate answers) classes",
+        ["redeliveries", "position_checks", "cache_repeats_expected", "cache_repeats_identical", "queries_sent", "answers_seen"],
+        ["--depth", "5"], ["--depth", "6"]),
     "C07": {
         "harness": "C07.c", "flavor": "asan", "images": (("s", "server"),), "engine": "E-C enumerators",
         "level_text": "Every case of four finite input families (all inputs up to 2 bytes x all capacities; all adjacent byte pairs at every block position; every length 0..4096; every (length<=72, capacity) pair for the chunking contract) is run through the real encode/decode entry points under ASan/UBSan and compared with an independent bit-stream reference; the enumeration is complete within those bounds, not sampled.",
@@ -196,10 +264,20 @@ PROPS = {
         "Every datagram emitted by the real client and the real server in every execution of the C01 exploration (clean path on all cells, every single fate deviation on the pairwise subset) is parsed by an independent strict RFC 1035 parser; every server answer must pair with a received, not yet answered query with the same requester, id, question name (byte-exact) and type.",
         "Trusted: ref/refdns.c. NS / A(ns,www) auxiliary answers are enumerated separately (see the C10 aux check in DESIGN.md); queries whose labels contain '.' or NUL are outside the property.",
         "distinct = distinct outcome classes of the executions whose datagrams were parsed", ["strictly_parsed", "answers"]),
-    "C14": ea_entry("C14",
-        "In every execution of the exploration a multiset of received-and-unanswered queries is kept per (requester, id, question, type); an answer that matches no pending entry is a violation, and at every select() of the server at most two distinct unanswered tunnel queries per session may exist.",
-        "Queries with DNS id 0 are ignored by design and excluded. The pending multiset is observed on the wire, not read from the server's variables.",
-        "distinct = distinct outcome classes; max_pending is the largest number of distinct held queries seen at a server select()", ["answers", "max_pending"]),
+    "C14": {
+        "engine": "E-A netsim + E-B adversary",
+        "parts": [
+            {"name": "ea", "harness": "ea.c", "flavor": "ubsan", "images": (("s", "server"), ("ca", "client")), "args": ["--prop", "C14"]},
+            {"name": "eb", "harness": "lazy.c", "flavor": "ubsan", "images": (("s", "server"),), "args": ["--prop", "C14"],
+             "tier_args": {"quick": ["--depth", "5"], "thorough": ["--depth", "6"]}},
+        ],
+        "tiers": {"quick": {"budget_s": 360}, "thorough": {"budget_s": 2400}},
+        "coverage": cov_c14,
+        "level_text": "Two exhaustive explorations feed the same wire-level monitor (multiset of received-and-unanswered queries per (requester, id, question, type); an answer that matches none is a violation; at most two distinct unanswered tunnel queries per lazy DNS session whenever the server is idle). (1) E-A: the real client against the real server over the configuration grid with every single fate deviation. (2) E-B: the harness as client of one established session, every sequence up to the depth bound of {new ping, new data fragment (first/last), re-delivery of the 1st/2nd/3rd/5th most recent query unchanged / with a fresh id / from a second relay port / upper-cased, tun packet of 1 and 3 fragments, +20 ms, +1 s, raw login, lazy on/off}, for each record type in lazy and immediate mode.",
+        "level_note": "Queries with DNS id 0 are ignored by design and excluded. The pending multiset is observed on the wire, not read from the server's variables; after a raw login the session is no longer a lazy DNS session and the two-held bound is not evaluated (the unsolicited-answer rule still is).",
+        "technique": "stateless model checking (fate enumeration, deviation-bounded) of real client+server, plus explicit-state depth-bounded search over a client-message alphabet against the real server loop",
+        "assumptions": EA_ASSUME + EB_ASSUME[2:],
+    },
     "C15": ea_entry("C15",
         "Every server answer that carries tunnel data, in every execution, is decoded by reference decoders for the five presentations (independent of the client) and checked against the fragment size the session negotiated on the wire ('n' request acknowledged by the server; 100 before): payload length, consecutive fragment numbers per downstream packet, identical resends, last flag only on the fragment that completes a compressed packet, sizes below 2 rejected.",
         "F is taken from the wire, not from the server's variable. Forced fragment sizes in the grid: auto, 50, 200, 1200; other values of F (2,3,5,4093..4096,65535) are covered by the dedicated boundary cells of the thorough tier.",
